@@ -947,6 +947,35 @@ package leveldb
 //@     invariant [C01,C06:no-table-down-to-this-level-overlaps-the-range] 0 <= level && (forall l int :: (0 <= l && l <= level && l < len(v.levels)) ==> (forall j int :: (0 <= j && j < len(v.levels[l])) ==> !ovl(v.levels[l][j], umin, umax)))
 //@   ensures [C01,C06:no-table-down-to-the-chosen-level-overlaps-the-range] (maxLevel > 0 && len(v.levels) > 0) ==> (level == 0 || (forall l int :: (0 <= l && l <= level && l < len(v.levels)) ==> (forall j int :: (0 <= j && j < len(v.levels[l])) ==> !ovl(v.levels[l][j], umin, umax))))
 
+// C06 / C01 / C07: what a table compaction records. A trivial move deletes the one input table from its level and
+// adds that same table one level down; a real compaction marks EVERY input table deleted at its own level (an input
+// left in the version would be read again next to the outputs made from it), builds outputs one level below the
+// source (flush), and commits the very record it filled.
+//@ count (*sessionRecord).delTable
+//@ func (*DB).tableCompaction
+//@   props C06 C01
+//@   safety off
+//@   at before call (*sessionRecord).delTable#1
+//@     assert [C01,C06:trivial-move-takes-the-table-out-of-its-level] arg0 == c.sourceLevel && arg1 == c.levels[0][0].fd.Num
+//@   at before call (*sessionRecord).addTableFile#1
+//@     assert [C01,C06:trivial-move-puts-the-same-table-one-level-down] arg0 == c.sourceLevel + 1 && arg1 == c.levels[0][0]
+//@   loop 1
+//@     invariant [C01,C06:every-input-so-far-is-recorded-deleted] calls("(*sessionRecord).delTable") == old(calls("(*sessionRecord).delTable")) + (rangeidx1 >= 1 ? len(c.levels[0]) : 0) + (rangeidx1 >= 2 ? len(c.levels[1]) : 0)
+//@   loop 2
+//@     invariant [C01,C06:every-input-of-this-level-so-far-is-recorded-deleted] calls("(*sessionRecord).delTable") == old(calls("(*sessionRecord).delTable")) + (i >= 1 ? len(c.levels[0]) : 0) + rangeidx2
+//@   at before call (*sessionRecord).delTable#2
+//@     assert [C01,C06:input-deleted-at-its-own-level] arg0 == c.sourceLevel + i && arg1 == t.fd.Num
+//@   at before call (*DB).compactionTransact#1
+//@     assert [C01,C06:every-input-is-recorded-deleted] calls("(*sessionRecord).delTable") == old(calls("(*sessionRecord).delTable")) + len(c.levels[0]) + len(c.levels[1])
+//@     assert [C01,C06:builder-fills-this-compactions-record] b.rec == rec && b.c == c
+//@   at before call (*DB).compactionCommit#2
+//@     assert [C01,C06:the-record-filled-is-the-record-committed] arg1 == rec
+//@ func (*tableCompactionBuilder).flush
+//@   props C06 C01
+//@   safety off
+//@   at before call (*sessionRecord).addTableFile#1
+//@     assert [C01,C06:compaction-output-goes-one-level-below-its-source] arg0 == b.c.sourceLevel + 1 && arg1 == t
+
 // C01 / C03: a compaction reads ALL of its inputs: every table of a level-0 input and the whole list of a deeper
 // input are put behind an iterator, over the full key range, and all of them are merged.
 //@ spec func itsFor(c ref, j int) int = len(c.levels[j]) == 0 ? 0 : (c.sourceLevel + j == 0 ? len(c.levels[j]) : 1)
